@@ -279,7 +279,7 @@ def gen_atmos_table():
     rel = "openaerostruct/common/atmos_comp.py"
     cols = [("alt", "alt"), ("T", "T"), ("P", "P"), ("rho", "rho"), ("a", "a"), ("mu", "viscosity")]
     lines = ["(* GENERATED by harness/translate.py from %s/%s — do not edit *)" % (REPO, rel),
-             "From Coq Require Import ZArith QArith List.", "From OAS Require Import Scalar.", "Import ListNotations.", "Open Scope Z_scope.", ""]
+             "From Coq Require Import ZArith QArith List.", "From OAS Require Import Scalar.", "Import ListNotations.", "Local Open Scope Z_scope.", ""]
     n = None
     for cname, attr in cols:
         data = _attr_array_assign(rel, "USatm1976Data", attr)
@@ -303,6 +303,68 @@ def gen_atmos_table():
 
 
 EXTRA.append(("AtmosTable.v", ["C17"], gen_atmos_table))
+
+
+# ---- beam element tables (structures/local_stiff.py, local_stiff_permuted.py) -----------------
+def _module_array(relpath, name):
+    node, src = module_assign(relpath, name)
+    if not (isinstance(node, ast.Call) and isinstance(node.func, ast.Attribute) and node.func.attr == "array" and len(node.args) == 1):
+        raise Refuse("%s: %s is not np.array(...)" % (relpath, name))
+    return node.args[0], src
+
+
+def _zz(e, src):
+    neg = False
+    if isinstance(e, ast.UnaryOp) and isinstance(e.op, ast.USub):
+        neg, e = True, e.operand
+    if not (isinstance(e, ast.Constant) and isinstance(e.value, (int, float)) and not isinstance(e.value, bool)):
+        raise Refuse("non-literal table entry")
+    d = Decimal(num_text(e, src).replace("_", ""))
+    if neg:
+        d = -d
+    fr = Fraction(d)
+    return fr.numerator, fr.denominator
+
+
+def gen_beam_tables():
+    rel = "openaerostruct/structures/local_stiff.py"
+    lines = ["(* GENERATED by harness/translate.py from %s/openaerostruct/structures/local_stiff*.py — do not edit *)" % REPO,
+             "From Coq Require Import ZArith List.", "From OAS Require Import Scalar.", "Import ListNotations.", "Local Open Scope Z_scope.", ""]
+    for name, n in (("coeffs_2", 2), ("coeffs_y", 4), ("coeffs_z", 4)):
+        lst, src = _module_array(rel, name)
+        if not (isinstance(lst, ast.List) and len(lst.elts) == n and all(isinstance(r, ast.List) and len(r.elts) == n for r in lst.elts)):
+            raise Refuse("%s is not a %dx%d literal" % (name, n, n))
+        rows = []
+        for r in lst.elts:
+            vals = [_zz(e, src) for e in r.elts]
+            if any(d != 1 for _, d in vals):
+                raise Refuse("%s has a non-integer entry" % name)
+            rows.append("[" + "; ".join(str(v) for v, _ in vals) + "]")
+        lines.append("Definition gen_%s : list (list Z) := [%s]." % (name, "; ".join(rows)))
+    lst, src = _module_array("openaerostruct/structures/local_stiff_permuted.py", "col_indices")
+    if not (isinstance(lst, ast.List) and len(lst.elts) == 12):
+        raise Refuse("col_indices is not a list of 12")
+    cols = [_zz(e, src)[0] for e in lst.elts]
+    lines.append("Definition gen_col_indices : list nat := [%s]%%nat." % "; ".join(str(c) for c in cols))
+    # the Lagrange weight of the clamping rows and the zeroing threshold of CreateRHS
+    t, src = tree("openaerostruct/structures/fem.py")
+    f = find_func(find_class(t, "FEM"), "assemble_CSC_K")
+    w = [n for n in ast.walk(f) if isinstance(n, ast.Call) and isinstance(n.func, ast.Attribute) and n.func.attr == "full"]
+    if len(w) != 1 or not isinstance(w[0].args[1], ast.Constant):
+        raise Refuse("fem.py: constraint weight np.full((6,), <literal>) not found")
+    lines.append("Section GenBeam.\n  Context {T : Type} {K : Ops T}.")
+    lines.append("  Definition gen_clamp_weight : T := %s.   (* %s *)" % (coq_of_const_expr(w[0].args[1], src), num_text(w[0].args[1], src)))
+    t, src = tree("openaerostruct/structures/create_rhs.py")
+    f = find_func(find_class(t, "CreateRHS"), "compute")
+    cmp_ = [n for n in ast.walk(f) if isinstance(n, ast.Compare)]
+    if len(cmp_) != 1 or not isinstance(cmp_[0].ops[0], ast.Lt) or not isinstance(cmp_[0].comparators[0], ast.Constant):
+        raise Refuse("create_rhs.py: threshold comparison not found")
+    lines.append("  Definition gen_rhs_threshold : T := %s.   (* %s *)" % (coq_of_const_expr(cmp_[0].comparators[0], src), num_text(cmp_[0].comparators[0], src)))
+    lines.append("End GenBeam.")
+    return "\n".join(lines) + "\n"
+
+
+EXTRA.append(("BeamTables.v", ["C10", "C02"], gen_beam_tables))
 
 
 if __name__ == "__main__":
